@@ -35,6 +35,8 @@ func scenarios(tier string) []sched.Scenario {
 		{Name: "leader-crash", Fault: "leader-crash", Clients: 2, PerCli: 1, SyncData: true},
 		{Name: "spurious-failover", Fault: "spurious-failover", Clients: 2, PerCli: 1, SyncData: true},
 		{Name: "lost-newterm-response", Fault: "lost-newterm-response", Clients: 2, PerCli: 1, SyncData: true},
+		{Name: "steady-connection-drop", Fault: "none", Clients: 2, PerCli: 2, SyncData: true, Breaks: 1},
+		{Name: "spurious-failover-connection-drop", Fault: "spurious-failover-break", Clients: 2, PerCli: 1, SyncData: true, Breaks: 1},
 		{Name: "spurious-failover-lossy", Fault: "spurious-failover-lossy", Clients: 2, PerCli: 1, SyncData: true, LossyRPC: 1},
 		{Name: "swap-lossy", Fault: "swap-lossy", Clients: 2, PerCli: 1, SyncData: true, LossyRPC: 1},
 		{Name: "swap", Fault: "swap", Clients: 2, PerCli: 1, SyncData: true},
